@@ -50,7 +50,9 @@ theorem numaAt_nonneg (l : List NumaRes) (h : ∀ r ∈ l, 0 ≤ r.cpu ∧ 0 ≤
     have h1 := h r (by simp)
     have h2 := ih (fun x hx => h x (by simp [hx]))
     simp only [numaAt]
-    split <;> simp <;> omega
+    split
+    · simp only []; omega
+    · exact h2
 
 theorem resSum_nonneg (ps : List PodAlloc) (h : ∀ p ∈ ps, Good p) (n : Nat) :
     0 ≤ (resSum ps n).1 ∧ 0 ≤ (resSum ps n).2 := by
@@ -70,10 +72,12 @@ theorem getRes_setRes (m : List (Nat × Int × Int)) (k : Nat) (v : Int × Int) 
     obtain ⟨ke, ve⟩ := e
     simp only [setRes]
     by_cases h : ke = k
-    · subst h; simp only [if_true, getRes]; split <;> rfl
+    · subst h; simp only [if_true, getRes]; split <;> simp_all
     · simp only [h, if_false, getRes]
       by_cases h2 : ke = k'
-      · subst h2; simp [h]
+      · subst h2
+        have : ¬ k = ke := fun e => h e.symm
+        simp [this]
       · simp [h2, ih]
 
 theorem getRes_of_not_has (m : List (Nat × Int × Int)) (k : Nat) (h : hasRes m k = false) :
@@ -112,15 +116,24 @@ theorem getRes_subRes (m : List (Nat × Int × Int)) (r : NumaRes) (n : Nat)
   by_cases hh : hasRes m r.node = true
   · simp only [hh, if_true, getRes_setRes]
     split
-    · next h => subst h; simp only [clamp0]; ext <;> simp <;> split <;> omega
+    · next h =>
+      subst h
+      have e1 : clamp0 ((getRes m r.node).1 - r.cpu) = (getRes m r.node).1 - r.cpu := by
+        unfold clamp0; split <;> omega
+      have e2 : clamp0 ((getRes m r.node).2 - r.mem) = (getRes m r.node).2 - r.mem := by
+        unfold clamp0; split <;> omega
+      rw [e1, e2]
     · rfl
   · have h0 := getRes_of_not_has m r.node (by simpa using hh)
-    simp only [hh]
+    rw [if_neg hh]
     split
     · next h =>
       subst h
       rw [h0] at hge ⊢
-      ext <;> simp at hge ⊢ <;> omega
+      simp only at hge
+      ext
+      · simp only []; omega
+      · simp only []; omega
     · rfl
 
 theorem getRes_foldl_subRes (l : List NumaRes) (m : List (Nat × Int × Int))
@@ -304,28 +317,30 @@ theorem inv_update (topo : List Nat) (s : St) (a : PodAlloc) (hs : Inv s) (ha : 
 
 /-! ### pods component of the operations -/
 
+theorem erasePod_of_not_mem (uid : Nat) (ps : List PodAlloc) (h : uid ∉ ps.map (·.uid)) :
+    erasePod uid ps = ps := by
+  induction ps with
+  | nil => rfl
+  | cons p ps ih =>
+    simp only [List.map_cons, List.mem_cons, not_or] at h
+    simp only [erasePod]
+    rw [if_neg (fun e => h.1 e.symm), ih h.2]
+
 theorem pods_release (topo : List Nat) (s : St) (uid : Nat) :
     (release topo s uid).pods = erasePod uid s.pods := by
   unfold release
   split
-  · next h =>
-    have := (findPod_none_iff uid s.pods).1 h
-    clear h
-    induction s.pods with
-    | nil => simp [erasePod]
-    | cons p ps ih =>
-      simp only [List.map_cons, List.mem_cons, not_or] at this
-      simp only [erasePod]
-      rw [if_neg (fun e => this.1 e.symm), ← ih this.2]
+  · next h => exact (erasePod_of_not_mem uid s.pods ((findPod_none_iff uid s.pods).1 h)).symm
   · rfl
 
 theorem pods_update (topo : List Nat) (s : St) (a : PodAlloc) (hs : (s.pods.map (·.uid)).Nodup) :
     (update topo s a).pods = a :: erasePod a.uid s.pods := by
-  unfold update addPod
   have hp := pods_release topo s a.uid
   have hnot : findPod a.uid (release topo s a.uid).pods = none := by
     rw [hp, findPod_none_iff]; exact erasePod_not_mem a.uid s.pods hs
-  simp only [hnot, hp]
+  unfold update addPod
+  rw [hnot]
+  simp only [hp]
 
 /-! ### observational equality -/
 
